@@ -8,9 +8,34 @@ from typing import Any, Optional
 
 LOG = []
 
+# Fault injection (operation histories with an ABORTED instantiation): when armed, the `index`-th constructor call
+# ("ctor") or compute_fn call ("fn") counted from the moment of arming raises; every other call behaves as usual.
+FAULT = {"what": None, "index": None, "exc": None, "ctor": 0, "fn": 0, "fired": 0}
+
+
+class InjectedFault(RuntimeError):
+    """A constructor / compute_fn that fails for a reason of its own (not a type problem)."""
+
+
+class InjectedValueError(ValueError):
+    """The same, raised as a ValueError (what a validating constructor typically raises)."""
+
 
 def reset():
     del LOG[:]
+
+
+def arm(what=None, index=None, exc="R"):
+    """arm("ctor" | "fn", index, "R" | "V") arms ONE fault; arm() disarms.  Counters restart."""
+    FAULT.update(what=what, index=index, exc=exc, ctor=0, fn=0, fired=0)
+
+
+def _fault_point(what, label):
+    n = FAULT[what]
+    FAULT[what] = n + 1
+    if FAULT["what"] == what and FAULT["index"] == n:
+        FAULT["fired"] += 1
+        raise (InjectedValueError if FAULT["exc"] == "V" else InjectedFault)(f"injected fault in {what} call #{n} ({label})")
 
 
 class Attr:
@@ -37,6 +62,7 @@ class FnResult:
 
 def make_fn(tag):
     def compute(*args):
+        _fault_point("fn", tag)
         return FnResult(tag, args)
 
     compute.__name__ = "fn_" + tag
@@ -45,6 +71,7 @@ def make_fn(tag):
 
 class Base:
     def _log(self, kwargs):
+        _fault_point("ctor", type(self).__name__)  # a failing constructor leaves no log entry
         LOG.append((type(self).__name__, self, kwargs))
         self.received = kwargs
         self.attr = Attr(type(self).__name__, kwargs.get("v"))
